@@ -73,7 +73,8 @@ def r2(ctx):
     ctx.check("backtest", ok, "one engine per backtest call", got=len(en), key="one-engine")
     if ok:
         a = en[0][2]
-        ctx.check("backtest", "BacktestMarketData::time_first_event(^args_constant.market_data)" in render(a[0]) and "HistoricalClock::new" in render(a[0]),
+        ctx.check("backtest", render(a[0]) == "Try::branch(Result::map(Future::poll(BacktestMarketData::time_first_event(^args_constant.market_data), "
+                  "future::get_context(resume)).as:Ready.0, fn:HistoricalClock::new)).as:Continue.0",
                   "a fresh historical clock starting at the dataset's first event", got=render(a[0])[:160], key="clock")
         ctx.check("backtest", render(a[1]) == "^args_constant.engine_state",
                   "the engine state is the shared initial state (cloned out of the Arc - it cannot be moved)", got=render(a[1]), key="state")
@@ -86,9 +87,10 @@ def r2(ctx):
         ctx.check("backtest", not eb.locals[2]["ty"].startswith("&"), "Engine::new takes the state by value", got=eb.locals[2]["ty"][:80], key="by-value")
     ms = [tm for bi, t, tm in calls if tm[1].endswith("BacktestMarketData::stream")]
     sbd = [tm for bi, t, tm in calls if mir.short(tm[1]) == "SystemBuild::new"]
-    ok = len(ms) == 1 and len(sbd) == 1 and render(ms[0][2][0]) == "^args_constant.market_data" and render(ms[0]) in render(sbd[0][2][3]) \
+    ok = len(ms) == 1 and len(sbd) == 1 and render(ms[0][2][0]) == "^args_constant.market_data" and \
+        render(sbd[0][2][3]) == "Try::branch(Future::poll(%s, future::get_context(resume)).as:Ready.0).as:Continue.0" % render(ms[0]) \
         and len(en) == 1 and sbd[0][2][0] == en[0]
-    ctx.check("backtest", ok, "the system is built from that engine and the dataset's own stream", got=[render(x)[:100] for x in sbd], key="system")
+    ctx.check("backtest", ok, "the system is built from that engine and exactly the dataset's own stream (not filtered / re-ordered / truncated)", got=[render(x[2][3])[:200] for x in sbd], key="system")
     ts = [tm for bi, t, tm in calls if mir.short(tm[1]) == "Engine::trading_summary_generator"]
     ok = len(ts) == 1 and "shutdown_after_backtest" in render(ts[0][2][0]) and render(ts[0][2][0]).endswith(".as:Continue.0.0")
     ctx.check("backtest", ok, "the summary is generated from the engine returned by this call's own shutdown", got=[render(x[2][0])[-80:] for x in ts], key="own-summary")
